@@ -335,6 +335,10 @@ impl World {
 		// force_close_broadcasting_latest_txn on a monitor that only exists in memory "may result
 		// in loss of funds")
 		for n in 0..n_nodes {
+			// (the ChannelManager must also have been told: a completion it has not processed yet
+			// leaves the channel "update in progress" as far as force_shutdown is concerned)
+			self.complete_all_monitor_writes(n);
+			self.do_pump(n);
 			self.complete_all_monitor_writes(n);
 			self.do_persist_mgr(n);
 			self.complete_all_monitor_writes(n);
